@@ -146,6 +146,32 @@ def search(func, candidate, seed, tier, obligation=''):
                              'transaction'}, 'ValueError', 'accepted', cases)
             except ValueError:
                 pass
+            # ... also when the wall clock has moved on since (an idle database): any bound past the stamp that
+            # follows the newest transaction is in the future of the DATABASE, whatever the time of day
+            clock[0] += 86400
+            nxt = TimeStamp(last).laterThan(TimeStamp(last)).raw()
+            for label, kw in (('before=(stamp after last)+1', dict(before=p64(u64(nxt) + 1))),
+                              ('at=last+1', dict(at=p64(u64(last) + 1))),
+                              ('at=naive datetime one hour after the newest transaction',
+                               dict(at=datetime.datetime.utcfromtimestamp(clock[0] - 86400 + 3600)))):
+                cases += 1
+                try:
+                    db.open(transaction.TransactionManager(), **kw)
+                    return fail({'storage': kind, 'open': label, 'clock': 'one day after the newest transaction'},
+                                'ValueError (a point later than the newest transaction is refused)', 'accepted', cases)
+                except ValueError:
+                    pass
+            # the two largest accepted bounds still open
+            for label, kw in (('at=last', dict(at=last)), ('before=stamp after last', dict(before=nxt))):
+                cases += 1
+                try:
+                    hc = db.open(transaction.TransactionManager(), **kw)
+                    got = state_of(hc)
+                    hc.close()
+                except Exception as e:  # noqa
+                    return fail({'storage': kind, 'open': label}, 'opens', '%s: %s' % (type(e).__name__, e), cases)
+                if got != points[-1][1]:
+                    return fail({'storage': kind, 'open': label}, 'state %r' % points[-1][1], 'state %r' % got, cases)
             tm.abort()
             conn.close()
             db.close()
@@ -153,4 +179,49 @@ def search(func, candidate, seed, tier, obligation=''):
             time.time = real_time
             if d:
                 shutil.rmtree(d, ignore_errors=True)
+    r = multi_database(cases)
+    return r
+
+
+def multi_database(cases):
+    """a historical connection's partner connections in other databases read at the same bound and cannot write"""
+    databases = {}
+    db1 = ZODB.DB(MappingStorage(), databases=databases, database_name='1')
+    db2 = ZODB.DB(MappingStorage(), databases=databases, database_name='2')
+    try:
+        tm = transaction.TransactionManager()
+        c1 = db1.open(tm)
+        c2 = c1.get_connection('2')
+        c2.root()['x'] = P(1)
+        tm.commit()
+        c1.root()['ref'] = c2.root()['x']
+        tm.commit()
+        point = max(db1.lastTransaction(), db2.lastTransaction())
+        time.sleep(0.002)
+        c2.root()['x'].v = 2
+        c1.root()['later'] = P(5)
+        tm.commit()
+        htm = transaction.TransactionManager()
+        hc = db1.open(htm, at=point)
+        cases += 1
+        x = hc.root()['ref']
+        inp = {'scenario': "two databases; db '1' holds a reference to x in db '2'; x changed after the point; "
+               "db1.open(at=point); the reference is followed"}
+        if x.v != 1 or 'later' in hc.root():
+            return fail(inp, 'x.v == 1 (the state at the point)', 'x.v == %r' % x.v, cases)
+        if x._p_jar.before != hc.before:
+            return fail(inp, 'partner connection reads at the same bound %r' % hc.before,
+                        'partner bound %r' % x._p_jar.before, cases)
+        x.v = 3
+        cases += 1
+        try:
+            htm.commit()
+            return fail(inp, 'commit through the historical connection (partner) refused', 'commit accepted', cases)
+        except ReadOnlyHistoryError:
+            htm.abort()
+        hc.close()
+        c1.close()
+    finally:
+        db1.close()
+        db2.close()
     return {'found': False, 'cases': cases}
